@@ -66,7 +66,28 @@ def census(idx: ProgramIndex) -> Dict[str, int]:
     return c
 
 
-def run(idx: ProgramIndex, rep: Report, tier: str, selftest: bool = True):
+def write_findings_for(idx: ProgramIndex, rep: Report, prop: str, rule: str, pred, prefix: str = "") -> int:
+    """Re-emit, under another property's rule id, the in-place-write findings (rule W) selected by pred(finding).  Used by
+    C12 (writes into operator-held / cached storage make later answers depend on this call) and C01 (a product kernel that
+    overwrites its operand)."""
+    sub = Report(PROP, "quick", rep.root)
+    sub.quiet = True
+    run(idx, sub, "quick", selftest=False, only_w=True)
+    st = sub.rules.get("C13.W")
+    n = 0
+    known = {k for k in sub.known_keys()} if hasattr(sub, "known_keys") else set()
+    for f in sub.findings:
+        if f.rule != "C13.W" or not pred(f):
+            continue
+        n += 1
+        rep.bad(rule, Finding(prop, rule, f.function, f.construct, (prefix + f.message), f.loc))
+    rep.count(rule, max((st.instances if st else 0) - n, 0))
+    for e in sub.errors:
+        rep.error(f"ownership analysis: {e}")
+    return n
+
+
+def run(idx: ProgramIndex, rep: Report, tier: str, selftest: bool = True, only_w: bool = False):
     rep.extra["explanation"] = (
         "Interprocedural ownership / may-alias analysis (forward dataflow over every statement of all functions and "
         "lambdas of the package, union join, loops to fixpoint; callee summaries RET = what the result may alias and "
@@ -184,6 +205,9 @@ def run(idx: ProgramIndex, rep: Report, tier: str, selftest: bool = True):
     from ..recordmut import report_record_mutations
 
     report_record_mutations(idx, rep, PROP, "C13.R")
+    from ..recordmut import report_denotation_container_mutations
+
+    report_denotation_container_mutations(idx, rep, PROP, "C13.D")
     if selftest:
         from ..selftest import run_fixtures
 
